@@ -18,6 +18,7 @@ Tie (every run):
     the serial-pool build of the same tool: sha256 of the image must be the same.
 """
 import hashlib, json, os, re, shutil, subprocess, time
+from pathlib import Path
 import vlib
 from checks.c09 import run_parallel, jobs
 
@@ -170,7 +171,7 @@ def unit_level(ctx, stats):
     h, hs = build_unit(ctx)
     rng = ctx.rng
     quick = ctx.quick()
-    nwl = 120 if quick else 1200
+    nwl = 300 if quick else 1500
     wls = [gen_workload(rng, quick) for _ in range(nwl)] + [gen_workload(rng, quick, big=True) for _ in range(6 if quick else 40)]
     corpus = sorted((vlib.CORPUS / "C02").glob("*.json")) if (vlib.CORPUS / "C02").exists() else []
     for p in corpus:
@@ -180,7 +181,7 @@ def unit_level(ctx, stats):
                            "chunk": c["chunk"], "files": [(f, bytes.fromhex(d)) for f, d in c["files"]]})
         except Exception as e:
             ctx.log("corpus entry %s unreadable: %s" % (p, e))
-    per = 14 if quick else 40
+    per = 20 if quick else 40
     maxw = 8 if quick else 63                 # harness/sched.c has room for 64 threads including the client
     lines, meta = [], []
     for wi, w in enumerate(wls):
@@ -289,6 +290,357 @@ def unit_level(ctx, stats):
     return h, hs
 
 
+# --------------------------------------------------------------------------------------------------- tool level
+TOOLS = ("gensquashfs", "tar2sqfs")
+SDE = "1600000000"
+
+
+def compile_obj(ctx, src, tag, flags):
+    o = ctx.scratch / ("%s_%s.o" % (Path(src).stem, tag))
+    if not o.exists():
+        cmd = ["gcc", "-O1", "-g", "-w", "-c"] + list(flags) + vlib.include_flags() + vlib.BASE_DEFS + [str(vlib.HARNESS / src), "-o", str(o)]
+        r = vlib.sh(cmd)
+        if r.returncode != 0:
+            raise vlib.CheckFailure("cannot compile %s: %s" % (src, r.stderr[-2000:]))
+    return o
+
+
+def build_tools(ctx, stats):
+    """-> {variant: {tool: path}}; variants: san (threaded, ASan+UBSan), serial (NO_THREAD_IMPL, ASan), plain (threaded, no
+    sanitizer: used with the LD_PRELOAD clock shim), tsan (threaded, ThreadSanitizer; absent when it does not link)"""
+    wrap = ["-Wl,--wrap=thread_pool_create"]
+    out = {}
+    tr_san = compile_obj(ctx, "c02_pooltrace.c", "san", vlib.SAN)
+    tr_plain = compile_obj(ctx, "c02_pooltrace.c", "plain", [])
+    out["san"] = {t: ctx.build_tool(t, "san", extra_objs=[str(tr_san)], ldflags=wrap) for t in TOOLS}
+    out["serial"] = {t: ctx.build_tool(t, "c02ser", serial_pool=True, extra_objs=[str(tr_san)], ldflags=wrap) for t in TOOLS}
+    out["plain"] = {t: ctx.build_tool(t, "c02plain", sanitize=False, extra_objs=[str(tr_plain)], ldflags=wrap) for t in TOOLS}
+    try:
+        tr_tsan = compile_obj(ctx, "c02_pooltrace.c", "tsan", ["-fsanitize=thread"])
+        out["tsan"] = {t: ctx.build_tool(t, "c02tsan", flags=["-fsanitize=thread"], sanitize=False, extra_objs=[str(tr_tsan)], ldflags=wrap)
+                       for t in TOOLS}
+        stats["tsan_build"] = "ok"
+    except vlib.CheckFailure as e:
+        stats["tsan_build"] = "not available: %s" % str(e)[:200]
+    shim = ctx.scratch / "shim_c02_time.so"
+    r = vlib.sh(["gcc", "-O1", "-shared", "-fPIC", "-w", str(vlib.HARNESS / "shim_c02_time.c"), "-o", str(shim), "-ldl"])
+    if r.returncode != 0:
+        raise vlib.CheckFailure("cannot build shim_c02_time.so: " + r.stderr[-1000:])
+    out["timeshim"] = shim
+    return out
+
+
+def gen_tree(rng, root, B, nfiles):
+    """a directory tree of multi-block files (sizes around k*B), short files (fragment blocks that overflow), holes,
+    duplicates and shared tails; fixed mtimes.  -> list of (relative path, bytes)"""
+    files = []
+    names = []
+    for i in range(nfiles):
+        d = rng.choice(["", "a", "a/b", "c"])
+        name = (d + "/" if d else "") + "f%03d_%s" % (i, rng.choice(["x", "y", "zz"]))
+        r = rng.random()
+        if files and r < 0.12:
+            data = rng.choice(files)[1]
+        else:
+            k = rng.choice([0, 0, 0, 1, 1, 2, 3, 6])
+            size = max(0, k * B + rng.choice([-1, 0, 1, rng.randint(1, B - 1), rng.randint(1, 600), rng.randint(1, 600)]))
+            kind = rng.choice("rrrccz")
+            if kind == "z":
+                data = bytes(size)
+            elif kind == "c":
+                data = (bytes([rng.randrange(256)]) * rng.randint(50, 400) * (size // 50 + 1))[:size]
+            else:
+                data = rng.randbytes(size)
+            if files and r < 0.3 and size > 0:
+                o = rng.choice(files)[1]
+                if len(o) % B:
+                    data = data[:len(data) - len(data) % B] + o[len(o) - len(o) % B:]
+        files.append((name, data))
+    for name, data in files:
+        p = root / name
+        p.parent.mkdir(parents=True, exist_ok=True)
+        p.write_bytes(data)
+    t = 1500000000
+    for dp, dn, fn in os.walk(root):
+        for n in fn + [""]:
+            q = os.path.join(dp, n) if n else dp
+            t += 7
+            os.utime(q, (t, t))
+    return files
+
+
+def make_inputs(ctx, rng, quick, idx):
+    import io, tarfile
+    B = rng.choice([4096, 4096, 8192])
+    d = ctx.scratch / ("c02in%d" % idx)
+    if d.exists():
+        shutil.rmtree(d)
+    root = d / "root"
+    root.mkdir(parents=True)
+    files = gen_tree(rng, root, B, rng.randint(25, 45) if quick else rng.randint(40, 120))
+    lines, dirs = [], set()
+    for name, _ in files:
+        parts = name.split("/")
+        for k in range(1, len(parts)):
+            dd = "/".join(parts[:k])
+            if dd not in dirs:
+                dirs.add(dd)
+                lines.append("dir /%s 0755 0 0" % dd)
+        lines.append("file /%s 0644 %d %d %s" % (name, rng.choice([0, 1000]), rng.choice([0, 100]), root / name))
+    (d / "pack.txt").write_text("\n".join(lines) + "\n")
+    bio = io.BytesIO()
+    with tarfile.open(fileobj=bio, mode="w", format=tarfile.GNU_FORMAT) as tf:
+        t = 1400000000
+        for name, data in files:
+            ti = tarfile.TarInfo(name)
+            ti.size = len(data)
+            ti.mode = 0o644
+            t += 3
+            ti.mtime = t
+            tf.addfile(ti, io.BytesIO(data))
+    (d / "in.tar").write_bytes(bio.getvalue())
+    return {"dir": d, "B": B, "nfiles": len(files), "bytes": sum(len(x) for _, x in files)}
+
+
+def input_rng(seed, tier, ci):
+    """the input sets have their own random stream, so that a replay can regenerate one of them"""
+    import random
+    return random.Random("C02/tool/%d/%s/%d" % (seed, tier, ci))
+
+
+def tool_cmd(builds, variant, flavour, inp, out, comp, extra):
+    d = inp["dir"]
+    if flavour == "tar":
+        return [str(builds[variant]["tar2sqfs"]), "-q", "-f", "-b", str(inp["B"]), "-c", comp] + extra + [str(out)], str(d / "in.tar")
+    cmd = [str(builds[variant]["gensquashfs"]), "-q", "-f", "-b", str(inp["B"]), "-c", comp] + extra
+    if flavour == "packdir":
+        cmd += ["-D", str(d / "root")]
+    elif flavour == "packdir-k":
+        cmd += ["-D", str(d / "root"), "-k"]
+    else:
+        cmd += ["-F", str(d / "pack.txt")]
+    return cmd + [str(out)], None
+
+
+def run_tool(ctx, cmd, stdin_path, env, cwd, umask, prefix, timeout=300):
+    e = ctx.san_env(env)
+    e.setdefault("TSAN_OPTIONS", "halt_on_error=0:exitcode=0")
+    def pre():
+        os.umask(umask)
+    f = open(stdin_path, "rb") if stdin_path else subprocess.DEVNULL
+    try:
+        r = subprocess.run(prefix + cmd, stdin=f, stdout=subprocess.PIPE, stderr=subprocess.PIPE, env=e, cwd=cwd, preexec_fn=pre,
+                           timeout=timeout)
+        rc, err = r.returncode, r.stderr.decode("utf-8", "replace")
+    except subprocess.TimeoutExpired:
+        rc, err = -999, "TIMEOUT"
+    finally:
+        if stdin_path:
+            f.close()
+    return rc, err
+
+
+def sha_file(p):
+    try:
+        return hashlib.sha256(Path(p).read_bytes()).hexdigest()
+    except OSError:
+        return "<no image>"
+
+
+def read_trace(p):
+    try:
+        return dict(kv.split("=") for kv in Path(p).read_text().split())
+    except Exception:
+        return {}
+
+
+ENV_CHOICES = {
+    "TZ": ["UTC", "America/New_York", "Asia/Tokyo", "Pacific/Kiritimati"],
+    "LC_ALL": ["C", "en_US.UTF-8", "tr_TR.UTF-8", "POSIX"],
+    "umask": [0o022, 0o077, 0o000, 0o027],
+}
+
+
+def tool_level(ctx, stats):
+    rng = ctx.rng
+    quick = ctx.quick()
+    t0 = time.time()
+    builds = build_tools(ctx, stats)
+    ncases = 3 if quick else 8
+    flavours = ["packdir", "packfile", "tar", "packdir-k"]
+    jobs_list = [1, 2, 3, 4, 7, 16, 64, None]
+    q_list = [1, 2, 3, 10, 1000, None]
+    runs = bad = 0
+    orders = {}
+    overtakes = 0
+    worker_counts = set()
+    tsan_runs = tsan_reports = 0
+    time_calls = 0
+    samples = []
+    ncpu = len(os.sched_getaffinity(0))
+    for ci in range(ncases):
+        inp = make_inputs(ctx, input_rng(ctx.seed, ctx.tier, ci), quick, ci)
+        comps = ["gzip"] if quick else ["gzip", rng.choice(["xz", "zstd", "lz4"])]
+        for comp in comps:
+            for flavour in flavours:
+                ref_out = ctx.scratch / "c02_ref.sqfs"
+                cmd, stdin = tool_cmd(builds, "serial", flavour, inp, ref_out, comp, [])
+                rc, err = run_tool(ctx, cmd, stdin, {"SOURCE_DATE_EPOCH": SDE}, str(ctx.scratch), 0o022, [])
+                ref = sha_file(ref_out)
+                runs += 1
+                if rc != 0:
+                    ctx.violation("tool-serial:" + vlib.sha(" ".join(cmd))[:12], "serial-pool build of the packer failed (rc=%s): %s" % (rc, err[-400:]),
+                                  {"kind": "tool", "cmd": cmd, "stderr": err[-2000:]}, found_input=False)
+                    continue
+                combos = []
+                n_this = (10 if quick else 40)
+                for k in range(n_this):
+                    j = jobs_list[k % len(jobs_list)] if k < len(jobs_list) else rng.choice(jobs_list)
+                    q = q_list[k % len(q_list)] if k < len(q_list) else rng.choice(q_list)
+                    combos.append((j, q))
+                for k, (j, q) in enumerate(combos):
+                    variant = "san"
+                    env = {"SOURCE_DATE_EPOCH": SDE, "TZ": rng.choice(ENV_CHOICES["TZ"]), "LC_ALL": rng.choice(ENV_CHOICES["LC_ALL"]),
+                           "C02_PERTURB_SEED": str(rng.randrange(1 << 30)), "C02_PERTURB_US": str(rng.choice([50, 200, 1000]))}
+                    umask = rng.choice(ENV_CHOICES["umask"])
+                    cwd = rng.choice([str(ctx.scratch), "/", str(inp["dir"])])
+                    prefix = []
+                    extra = []
+                    if j is not None:
+                        extra += ["-j", str(j)]
+                    elif ncpu > 1 and rng.random() < 0.7:
+                        ncp = rng.randint(1, min(ncpu, 6))
+                        cpus = sorted(rng.sample(sorted(os.sched_getaffinity(0)), ncp))
+                        prefix = ["taskset", "-c", ",".join(str(c) for c in cpus)]
+                    if q is not None:
+                        extra += ["-Q", str(q)]
+                    if k % 5 == 4:                      # faked wall clock (uninstrumented build + LD_PRELOAD)
+                        variant = "plain"
+                        env["LD_PRELOAD"] = str(builds["timeshim"])
+                        env["C02_FAKE_TIME"] = str(rng.choice([0, 86399, 1234567890, 4102444800]))
+                        env["C02_TIME_LOG"] = str(ctx.scratch / "c02_time.log")
+                    trace = ctx.scratch / "c02_trace.txt"
+                    if trace.exists():
+                        trace.unlink()
+                    env["C02_TRACE_FILE"] = str(trace)
+                    out = ctx.scratch / "c02_out.sqfs"
+                    if out.exists():
+                        out.unlink()
+                    cmd, stdin = tool_cmd(builds, variant, flavour, inp, out, comp, extra)
+                    rc, err = run_tool(ctx, cmd, stdin, env, cwd, umask, prefix)
+                    got = sha_file(out)
+                    runs += 1
+                    tr = read_trace(trace)
+                    if tr:
+                        orders.setdefault((ci, comp, flavour), set()).add(tr.get("order"))
+                        if int(tr.get("overtakes", "0")) > 0:
+                            overtakes += 1
+                        worker_counts.add(tr.get("workers"))
+                    if variant == "plain":
+                        try:
+                            time_calls += int((ctx.scratch / "c02_time.log").read_text().strip() or 0)
+                        except Exception:
+                            pass
+                    why = None
+                    if rc != 0:
+                        why = "packer failed (rc=%s): %s" % (rc, err[-300:])
+                    elif tr and tr.get("fifo") == "0":
+                        why = "the pool handed items back out of submission order"
+                    elif got != ref:
+                        why = "image differs from the serial-pool build's image (sha256 %s… vs %s…)" % (got[:16], ref[:16])
+                    if why:
+                        bad += 1
+                        if bad <= 3:
+                            ctx.violation("tool:" + vlib.sha(" ".join(cmd) + json.dumps(env, sort_keys=True))[:12],
+                                          "%s -j %s -Q %s (%s, %s): %s" % (Path(cmd[0]).name, j, q, flavour, comp, why),
+                                          {"kind": "tool", "seed": ctx.seed, "tier": ctx.tier, "case": ci, "flavour": flavour, "comp": comp,
+                                           "variant": variant, "extra": extra, "env": env, "umask": umask, "cwd": cwd, "prefix": prefix,
+                                           "stderr": err[-1500:]})
+                    if len(samples) < 3:
+                        samples.append("%s | env TZ=%s LC_ALL=%s umask=%o cwd=%s %s" % (" ".join(prefix + cmd)[-200:], env["TZ"], env["LC_ALL"], umask, cwd,
+                                                                                        "faketime=" + env.get("C02_FAKE_TIME", "-")))
+                # ThreadSanitizer build: reports are results
+                if "tsan" in builds and (flavour in ("packdir", "tar")):
+                    for (j, q) in ([(4, 3)] if quick else [(4, 3), (8, None), (2, 1)]):
+                        out = ctx.scratch / "c02_out.sqfs"
+                        if out.exists():
+                            out.unlink()
+                        extra = ["-j", str(j)] + (["-Q", str(q)] if q else [])
+                        cmd, stdin = tool_cmd(builds, "tsan", flavour, inp, out, comp, extra)
+                        env = {"SOURCE_DATE_EPOCH": SDE, "C02_PERTURB_SEED": str(rng.randrange(1 << 30)), "C02_PERTURB_US": "100"}
+                        rc, err = run_tool(ctx, cmd, stdin, env, str(ctx.scratch), 0o022, [], timeout=600)
+                        tsan_runs += 1
+                        runs += 1
+                        got = sha_file(out)
+                        if "ThreadSanitizer" in err:
+                            tsan_reports += 1
+                            m = re.search(r"WARNING: ThreadSanitizer: ([^\n]*)\n((?:.*\n){0,14})", err)
+                            ctx.violation("tsan:" + vlib.sha(m.group(0) if m else err[:300])[:12],
+                                          "ThreadSanitizer report in %s -j %d: %s" % (Path(cmd[0]).name, j, (m.group(0) if m else err[:600])[:900]),
+                                          {"kind": "tool", "seed": ctx.seed, "tier": ctx.tier, "case": ci, "flavour": flavour, "comp": comp,
+                                           "variant": "tsan", "extra": extra, "env": env, "umask": 0o022, "cwd": str(ctx.scratch), "prefix": [],
+                                           "stderr": err[-3000:]})
+                        elif rc != 0 or got != ref:
+                            bad += 1
+                            ctx.violation("tool-tsan:" + vlib.sha(" ".join(cmd))[:12],
+                                          "TSan build: rc=%s, image %s the serial build's" % (rc, "equals" if got == ref else "differs from"),
+                                          {"kind": "tool", "seed": ctx.seed, "tier": ctx.tier, "case": ci, "flavour": flavour, "comp": comp,
+                                           "variant": "tsan", "extra": extra, "env": env, "umask": 0o022, "cwd": str(ctx.scratch), "prefix": [],
+                                           "stderr": err[-1500:]})
+        shutil.rmtree(inp["dir"], ignore_errors=True)
+    sde_bad = sde_level(ctx, builds, stats)
+    stats["tool"] = {
+        "runs": runs, "input_sets": ncases, "flavours": flavours, "jobs": [str(j) for j in jobs_list], "backlogs": [str(q) for q in q_list],
+        "image_mismatches": bad, "distinct_completion_orders": sum(len(v) for v in orders.values()),
+        "configurations_with_more_than_one_completion_order": sum(1 for v in orders.values() if len(v) > 1),
+        "runs_with_overtaking_blocks": overtakes, "worker_counts_seen": sorted(worker_counts, key=lambda x: int(x or 0)),
+        "tsan_build": stats.get("tsan_build"), "tsan_runs": tsan_runs, "tsan_reports": tsan_reports,
+        "clock_reads_intercepted": time_calls, "source_date_epoch_cases": stats.get("sde_cases", 0),
+        "environment": "TZ x LC_ALL x umask x cwd x CPU affinity (taskset) x faked clock (LD_PRELOAD) x SOURCE_DATE_EPOCH fixed",
+        "wall_s": round(time.time() - t0, 1)}
+    stats["evaluations"] += runs
+    stats["disagreements"] += bad + tsan_reports + sde_bad
+    stats["samples"] += samples
+
+
+def sde_level(ctx, builds, stats):
+    """`get_source_date_epoch` / `--defaults mtime=` against Sqfs/Model/BuildEnv.lean: the super block's modification_time"""
+    import struct
+    d = ctx.scratch / "c02sde"
+    (d / "root").mkdir(parents=True, exist_ok=True)
+    (d / "root" / "f").write_bytes(b"hello")
+    cases = [(None, None), ("", None), ("0", None), ("12", None), ("007", None), ("4294967295", None), ("4294967296", None),
+             ("99999999999999999999", None), ("12a", None), ("-5", None), (" 7", None), ("1600000000", None),
+             ("1600000000", "77"), (None, "4294967295"), ("abc", "5")]
+    lines = []
+    for sde, dm in cases:
+        lines.append("mtime %s %s 0 0" % ("none" if sde is None else hx(sde.encode()), "-" if dm is None else dm))
+    model = ctx.driver(["c02"], "\n".join(lines) + "\n")
+    bad = 0
+    for (sde, dm), m in zip(cases, model):
+        out = d / "o.sqfs"
+        env = {}
+        if sde is not None:
+            env["SOURCE_DATE_EPOCH"] = sde
+        cmd = [str(builds["san"]["gensquashfs"]), "-q", "-f", "-D", str(d / "root")] + (["-d", "mtime=%s" % dm] if dm else []) + [str(out)]
+        e = ctx.san_env(env)
+        if sde is None:
+            e.pop("SOURCE_DATE_EPOCH", None)
+        r = subprocess.run(cmd, stdout=subprocess.PIPE, stderr=subprocess.PIPE, env=e)
+        try:
+            got = struct.unpack("<I", out.read_bytes()[8:12])[0]
+        except Exception:
+            got = None
+        want = int(m.split()[0]) if m and m.split()[0].isdigit() else None
+        if r.returncode != 0 or got != want:
+            bad += 1
+            ctx.violation("sde:%s:%s" % (sde, dm), "super block modification_time with SOURCE_DATE_EPOCH=%r --defaults mtime=%r: real %r, model %r (rc=%d)" % (
+                sde, dm, got, want, r.returncode), {"kind": "sde", "sde": sde, "defaults_mtime": dm, "real": got, "model": m}, found_input=False)
+    stats["sde_cases"] = len(cases)
+    shutil.rmtree(d, ignore_errors=True)
+    return bad
+
+
 # --------------------------------------------------------------------------------------------------- run / replay
 def run(ctx):
     ok, problems = vlib.proof_gate(ctx, MODULE, REQUIRED)
@@ -297,6 +649,7 @@ def run(ctx):
                       {"broken": problems}, found_input=False)
     stats = {"evaluations": 0, "disagreements": 0, "samples": []}
     unit_level(ctx, stats)
+    tool_level(ctx, stats)
     ctx.cov.update({
         "evaluations": stats["evaluations"],
         "distinct_nontrivial": stats["unit"]["distinct_nontrivial_workloads"],
@@ -343,5 +696,38 @@ def replay(ctx, path):
             fail = a != b
         print("REPRODUCED" if fail else "not reproduced")
         return 1 if fail else 0
+    if kind == "tool":
+        stats = {}
+        builds = build_tools(ctx, stats)
+        if rp["variant"] not in builds:
+            print("variant %s cannot be built here: %s" % (rp["variant"], stats.get("tsan_build")))
+            return 0
+        quick = rp.get("tier", "quick") == "quick"
+        inp = make_inputs(ctx, input_rng(rp["seed"], rp.get("tier", "quick"), rp["case"]), quick, rp["case"])
+        ref_out, out = ctx.scratch / "c02_ref.sqfs", ctx.scratch / "c02_out.sqfs"
+        cmd, stdin = tool_cmd(builds, "serial", rp["flavour"], inp, ref_out, rp["comp"], [])
+        rc0, err0 = run_tool(ctx, cmd, stdin, {"SOURCE_DATE_EPOCH": SDE}, str(ctx.scratch), 0o022, [])
+        env = dict(rp["env"])
+        if "LD_PRELOAD" in env:
+            env["LD_PRELOAD"] = str(builds["timeshim"])
+        env["C02_TRACE_FILE"] = str(ctx.scratch / "c02_trace.txt")
+        cwd = rp["cwd"] if os.path.isdir(rp["cwd"]) else str(ctx.scratch)
+        cmd, stdin = tool_cmd(builds, rp["variant"], rp["flavour"], inp, out, rp["comp"], rp["extra"])
+        rc, err = run_tool(ctx, cmd, stdin, env, cwd, rp["umask"], rp["prefix"], timeout=600)
+        a, b = sha_file(ref_out), sha_file(out)
+        print("serial build  rc=%s sha256=%s" % (rc0, a))
+        print("this config   rc=%s sha256=%s  (%s)" % (rc, b, " ".join(rp["prefix"] + cmd[1:])))
+        print("pool trace:", read_trace(ctx.scratch / "c02_trace.txt"))
+        if "ThreadSanitizer" in err:
+            print(err[-3000:])
+        fail = rc != 0 or a != b or "ThreadSanitizer" in err
+        print("REPRODUCED" if fail else "not reproduced (the failure may need another schedule: repeat, or vary C02_PERTURB_SEED)")
+        return 1 if fail else 0
+    if kind == "sde":
+        stats = {}
+        builds = build_tools(ctx, stats)
+        bad = sde_level(ctx, builds, stats)
+        print("REPRODUCED" if bad else "not reproduced")
+        return 1 if bad else 0
     print("nothing to replay for kind %r" % kind)
     return 0
